@@ -324,6 +324,33 @@ pub fn take_session_keys() -> Vec<SessionKeys> {
     KEYLOG.with(|k| std::mem::take(&mut *k.borrow_mut()))
 }
 
+/// One entry of the request-transmission log (H8): a handler put a new request on the wire
+/// (`Handler::send_request`), as an encrypted message or, without a session, as a random packet.
+#[derive(Clone, Debug)]
+pub struct RequestTx {
+    pub local: enr::NodeId,
+    pub remote: enr::NodeId,
+    pub request_id: Vec<u8>,
+    /// true: a request of the handler's own (the record request for a contact without record)
+    pub internal: bool,
+    pub message_nonce: [u8; 12],
+    /// true: sent as a random packet because no session existed
+    pub sessionless: bool,
+}
+
+thread_local! {
+    static REQLOG: RefCell<Vec<RequestTx>> = const { RefCell::new(Vec::new()) };
+}
+
+pub(crate) fn log_request_tx(entry: RequestTx) {
+    REQLOG.with(|k| k.borrow_mut().push(entry));
+}
+
+/// Takes (and clears) the request-transmission log of this thread.
+pub fn take_request_log() -> Vec<RequestTx> {
+    REQLOG.with(|k| std::mem::take(&mut *k.borrow_mut()))
+}
+
 /// Scripted handler seam (H5): when armed on the current thread, the next `Handler::spawn`
 /// returns the harness's channels instead of starting a handler, so that a real `Service` can be
 /// driven by a harness that plays the handler.
